@@ -59,6 +59,11 @@ POOL = [
     ("non_bmp", "token A B; // \U0001D54F é\nstart s; /* \U0001D54F */ s: A \U0001D54F B;\nt: é B;\n"),
     ("crlf", "token A B;\r\nstart s;\r\ns: A b;\r\nb: B*;\r\n"),
     ("predicates", "token A B;\nstart s;\ns: ?1 A #1 | B >x;\n"),
+    # valid grammars with non-BMP / multi-byte characters IN FRONT OF names on the same line
+    ("valid_nonbmp_oneline", "token Smile='\U0001F600' Plus='+' Num='n'; start e; e: e '+' e | '\U0001F600' e | Num;"),
+    ("valid_nonbmp_comment", "/* \U0001F389 */ token A B='\U0001F389\U0001F389'; /* \U0001F389\U0001F389 */ start s;\n"
+                             "/* \U0001F389 */ s: A b '\U0001F389\U0001F389' A; /* \U0001D54F */ b: B* A;\n"),
+    ("valid_bmp_multibyte", "/* \u00e9\u00e9 */ token A B='\u00e9'; start s; s: A b '\u00e9'; /* \u4e2d */ b: B* A;\n"),
 ]
 
 
@@ -91,6 +96,7 @@ class TextInfo:
                 t = 1
             self.lines.append((st, len(seg) - t, t))
         self.tokens = lex_names(text)
+        self.occ = Occurrences(text)
 
     def line_content(self, k):
         st, n, _ = self.lines[k]
@@ -221,6 +227,94 @@ def lex_names(text):
     return out
 
 
+_TOK = re.compile(r"//[^\n]*|/\*.*?\*/|'(?:[^'\\\n]|\\.)*'|[A-Za-z_][A-Za-z0-9_]*|[?#]\d+|[<>@][A-Za-z0-9_]*|\s+|.", re.S)
+
+
+class Occurrences:
+    """Names of a grammar text, found with the oracle's own tokenizer: where every token and rule is
+    declared and where it is used in rule bodies.  `ok` only if the text has exactly the simple
+    shape this reader understands (otherwise nothing is required of the server)."""
+
+    def __init__(self, text):
+        self.ok = True
+        self.decls = {}       # ("tok", name) / ("rule", name) -> dict(a, b, na, nb, sym)
+        self.bysym = {}       # symbol spelling -> token name
+        self.uses = []        # dict(a, b, w, decl)
+        toks = []
+        for m in _TOK.finditer(text):
+            w = m.group(0)
+            if w.isspace() or w.startswith("//") or w.startswith("/*"):
+                continue
+            k = "sym" if w[0] == "'" else "id" if re.match(r"[A-Za-z_]", w) else "op"
+            toks.append((m.start(), m.end(), k, w))
+        decl = []
+        bodies = []
+        for t in toks:
+            decl.append(t)
+            if t[3] != ";":
+                continue
+            d, decl = decl, []
+            head = d[0]
+            if head[2] != "id":
+                self.ok = False
+            elif head[3] == "token":
+                i = 1
+                while i < len(d) - 1:
+                    if d[i][2] != "id":
+                        self.ok = False
+                        break
+                    name, sym, end = d[i], None, d[i][1]
+                    if i + 2 < len(d) and d[i + 1][3] == "=" and d[i + 2][2] == "sym":
+                        sym, end = d[i + 2], d[i + 2][1]
+                        i += 2
+                    i += 1
+                    if ("tok", name[3]) in self.decls or (sym and sym[3] in self.bysym):
+                        self.ok = False
+                    self.decls[("tok", name[3])] = {"a": name[0], "b": end, "na": name[0], "nb": name[1], "uses": []}
+                    if sym:
+                        self.bysym[sym[3]] = name[3]
+            elif head[3] in ("start", "right", "skip", "part"):
+                pass
+            else:
+                j = 1
+                if j < len(d) and d[j][3] == "^":
+                    j += 1
+                if j >= len(d) or d[j][3] != ":" or ("rule", head[3]) in self.decls:
+                    self.ok = False
+                    continue
+                self.decls[("rule", head[3])] = {"a": head[0], "b": d[-1][1], "na": head[0], "nb": head[1], "uses": []}
+                bodies.append(d[j + 1:-1])
+        if decl:
+            self.ok = False
+        for body in bodies:
+            for (a, b, k, w) in body:
+                if k == "sym":
+                    key = ("tok", self.bysym.get(w))
+                elif k == "id":
+                    key = ("tok" if w[0].isupper() else "rule", w)
+                else:
+                    continue
+                dd = self.decls.get(key)
+                if dd is None:
+                    self.ok = False
+                    continue
+                u = {"a": a, "b": b, "w": w, "decl": dd}
+                dd["uses"].append(u)
+                self.uses.append(u)
+
+    def use_at(self, cps):
+        for u in self.uses:
+            if all(u["a"] <= i < u["b"] for i in cps):
+                return u
+        return None
+
+    def declname_at(self, cps):
+        for dd in self.decls.values():
+            if all(dd["na"] <= i < dd["nb"] for i in cps):
+                return dd
+        return None
+
+
 _infos = {}
 
 
@@ -334,6 +428,22 @@ def sweep_sessions(T, kinds, every):
                 again = dict(st, line=0, character=0)
                 out.append({"id": "sweep:%s:%s:%d:%d" % (name, op, l, c), "origin": "sweep",
                             "steps": [{"op": "open", "doc": 1, "text": text}, st, again]})
+    return out
+
+
+def sweepall_sessions():
+    """One long session per pool text: open, then hover / definition / references(with declaration)
+    at EVERY UTF-16 position of every line (past the line end and past the last line included)."""
+    out = []
+    for name, text in POOL:
+        steps = [{"op": "open", "doc": 1, "text": text}]
+        for (l, c, cls) in info(text).positions():
+            for op in ("hover", "definition", "references"):
+                st = {"op": op, "doc": 1, "line": l, "character": c}
+                if op == "references":
+                    st["include_declaration"] = True
+                steps.append(st)
+        out.append({"id": "sweepall:%s" % name, "origin": "sweepall", "steps": steps})
     return out
 
 
@@ -684,7 +794,8 @@ class Judge:
         self.viol = []            # (key, desc, session id, mode)
         self.counts = {}
         self.notes = {"diagnostics_judged": 0, "hover_judged": 0, "definition_judged": 0, "references_judged": 0,
-                      "fresh_judged": 0, "ranges_judged": 0, "clamp_equivalence_judged": 0, "clamp_equivalence_mismatch": 0,
+                      "fresh_judged": 0, "ranges_judged": 0, "clamp_equivalence_judged": 0, "names_hover_judged": 0, "names_definition_judged": 0,
+                      "names_references_judged": 0, "clamp_equivalence_mismatch": 0,
                       "latent_thread_panics": 0, "hover_unjudged": 0, "definition_on_non_name": 0,
                       "definition_other_file": 0, "range_in_terminator": 0, "reference_text_panics": 0}
         self.defref_queries = []  # (tid, line, ch) -> follow-up reference queries
@@ -873,6 +984,8 @@ class Judge:
                     self.flag("RangeInside:%s" % op, "session %s (%s/%s): step %d %r returned the range %r outside the document %r"
                               % (sess["id"], rec.get("mode"), rec.get("pacing"), i, strip_step(st), g, text), sess, rec)
                     break
+            if op in ("hover", "definition", "references") and in_doc:
+                self.names_oracle(sess, rec, i, st, res, tid, ti)
             if op == "hover" and res and in_doc:
                 hm = hover_mismatch(res, self.refs.export[tid], ti)
                 if hm == "unjudged":
@@ -932,6 +1045,49 @@ class Judge:
                 self.flag(key, "session %s (%s/%s): the server died (%r) although every step got its reply; first panic %r, "
                           "triggered by step %r" % (sess["id"], rec.get("mode"), rec.get("pacing"), rec["died"], root, trig), sess, rec)
         return events
+
+    def names_oracle(self, sess, rec, i, st, res, tid, ti):
+        """Definition, hover and references against the names of the text itself (own tokenizer, own
+        UTF-16 geometry).  Only for texts the command-line check accepts without errors and whose
+        shape the oracle's reader understands; only for positions strictly inside an occurrence."""
+        e = self.refs.export[tid]
+        if "panic" in e or e.get("haserror") or not ti.occ.ok:
+            return
+        op = st["op"]
+        cps = ti.clamp_cps(st["line"], st["character"])
+        where = "session %s (%s/%s): step %d %r on %r" % (sess["id"], rec.get("mode"), rec.get("pacing"), i,
+                                                         strip_step(st), ti.text)
+
+        def cpr(rng):
+            return (ti.pos_to_cp(rng["start"]["line"], rng["start"]["character"]),
+                    ti.pos_to_cp(rng["end"]["line"], rng["end"]["character"]))
+        u = ti.occ.use_at(cps)
+        if op == "hover" and u is not None:
+            self.notes["names_hover_judged"] += 1
+            if not res:
+                self.flag("Hover:missing:%s" % st.get("pc"), "%s: no hover although the position is inside the name %r"
+                          % (where, u["w"]), sess, rec)
+            elif cpr(res["range"]) != (u["a"], u["b"]):
+                self.flag("Hover:wrong_target", "%s: hover describes %r (%r), the name under the cursor is %r"
+                          % (where, ti.range_text(res["range"]), res["range"], u["w"]), sess, rec)
+        if op == "definition" and u is not None:
+            self.notes["names_definition_judged"] += 1
+            d = u["decl"]
+            if not res:
+                self.flag("Definition:missing:%s" % st.get("pc"), "%s: no definition although the position is inside the "
+                          "name %r declared at %r" % (where, u["w"], ti.cp_to_pos(d["na"])), sess, rec)
+            elif not res.get("uri", "").endswith("doc%d.llw" % st["doc"]) or cpr(res["range"]) != (d["a"], d["b"]):
+                self.flag("Definition:wrong_target", "%s: definition of %r is %r (%r), its declaration is %r"
+                          % (where, u["w"], ti.range_text(res["range"]), res["range"], ti.text[d["a"]:d["b"]]), sess, rec)
+        if op == "references":
+            d = ti.occ.declname_at(cps)
+            if d is not None:
+                self.notes["names_references_judged"] += 1
+                got = {cpr(g["range"]) for g in (res or [])}
+                missing = [x["w"] + "@%d:%d" % ti.cp_to_pos(x["a"]) for x in d["uses"] if (x["a"], x["b"]) not in got]
+                if missing:
+                    self.flag("References:missing_occurrence", "%s: references from the declaration %r miss the occurrences %r; "
+                              "got %r" % (where, ti.text[d["na"]:d["nb"]], missing, res), sess, rec)
 
     def defref_round(self):
         """definition(p) = L  =>  references(L.start, with declaration) contains L and the name at p."""
@@ -1090,6 +1246,7 @@ def judge(prop, tier):
     for k in range(12):
         sessions.append(instantiate(cex, rng, T, "cex:%d" % k))
     sessions += sweep_sessions(T, POSITIONAL, 3 if quick else 1)
+    sessions += sweepall_sessions()
     nrand = 300 if quick else 1500
     for k in range(nrand):
         sessions.append(random_session(rng, T, "rand:%d" % k, 0.12 if k % 3 else 0.0))
@@ -1115,8 +1272,8 @@ def judge(prop, tier):
 
     # stdio sample: TLC histories, the counterexample, sweeps over edge classes, random sessions
     nstd = 100 if quick else 1000
-    pools = {o: [s for s in sessions if s["origin"] == o] for o in ("tlc", "sweep", "random")}
-    sample = [by_id["cex:%d" % k] for k in range(3)]
+    pools = {o: [s for s in sessions if s["origin"] == o] for o in ("tlc", "sweep", "random", "sweepall")}
+    sample = [by_id["cex:%d" % k] for k in range(3)] + pools["sweepall"]
     sample += rng.sample(pools["tlc"], min(len(pools["tlc"]), nstd * 5 // 10))
     sample += rng.sample(pools["sweep"], min(len(pools["sweep"]), nstd * 2 // 10))
     sample += rng.sample(pools["random"], min(len(pools["random"]), nstd * 3 // 10))
